@@ -25,7 +25,7 @@ warnings.simplefilter("ignore")
 
 from . import ftstate as F  # noqa: E402
 from . import gen_session as G  # noqa: E402
-from .common import Driver, Failure, Result, h, ncores, shard_seeds  # noqa: E402
+from .common import VALID_DRIVER, Driver, Failure, Result, h, ncores, shard_seeds  # noqa: E402
 
 from funtracks.exceptions import InvalidActionError  # noqa: E402
 from funtracks.user_actions import (  # noqa: E402
@@ -1140,6 +1140,7 @@ def worker(args) -> Result:
     rng = random.Random(seed)
     res = Result()
     drv = Driver()
+    vdrv = Driver(VALID_DRIVER) if (VALID_DRIVER.exists() and prop in ("C03", "C04", "C05", "C06")) else None
     batch_lines: list[str] = []
     batch_meta: list = []
     oracle_sigs: set = set()
@@ -1148,9 +1149,24 @@ def worker(args) -> Result:
         if not batch_lines:
             return
         outl = drv.run(batch_lines)
+        vout = vdrv.run(batch_lines) if vdrv is not None else None
         pos = 0
         for spec, init_line, ops, outs, states, n in batch_meta:
             seg = outl[pos:pos + n]
+            if vout is not None:
+                # hypotheses of the theorems, measured: is `Valid` (checked by the sound Boolean
+                # checker inside the model) true in every state the session reaches?
+                for j, vl in enumerate(vout[pos:pos + n]):
+                    if " linOn=1" not in vl:
+                        res.count("hyp:Valid:not-applicable(lineage off)")
+                    elif vl.startswith("err") or vl.startswith("bad-op"):
+                        res.count("hyp:Valid:after-refusal:" + ("true" if " V=1" in vl else "false"))
+                    elif " V=1" in vl:
+                        res.count("hyp:Valid:true")
+                    else:
+                        res.count("hyp:Valid:false")
+                        if len(res.notes) < 5:
+                            res.notes.append(f"Valid checker false at step {j} of session {json.dumps({'spec': spec, 'ops': ops[:j]})[:600]}")
             pos += n
             for f in compare_session(prop, spec, init_line, ops, outs, states, seg, res):
                 if len([x for x in res.failures if x.kind == "divergence"]) < 5:
